@@ -19,11 +19,17 @@ KIND_PROPS = {
 }
 
 
+# methods outside the symbolic executor's reach: covered by a bounded native stand-in (nativeob.py)
+STANDIN = {("Bag", "eq"): "nested loops with break over sorted item lists", ("Bag", "ne"): "delegates to Bag.__eq__"}
+
+
 def method_tasks(prop):
     out = []
     for K in CLASSES:
         for kind, props in KIND_PROPS.items():
             if prop not in props:
+                continue
+            if (K, kind) in STANDIN:
                 continue
             if kind == "fill-rollback" and K not in SINGLE_PATH:
                 continue
